@@ -62,26 +62,8 @@ Definition retain_pred (panic_at : option nat) (bits : list bool) (k : nat) : op
   else match bits with [] => Some true | _ => Some (nth (Nat.modulo k (length bits)) bits true) end.
 
 (* ---- iterator-driven loops: each returns the final *self and how the loop ended ---- *)
-(* Extend<char> body (lib.rs:1221-1223): self.push(ch) = try_push(ch).unwrap_with_msg() *)
-Fixpoint push_chars (r : repr) (cs : list N) (k : nat) (panic_at : option nat) : cmd (repr * outcome) :=
-  match cs with
-  | [] => Ret (r, OkUnit)
-  | c :: rest =>
-      if eq_opt_nat panic_at k then Ret (r, PanicUser) else
-      p <- push_str r (encode_cp c) ;;
-      let '(r', ok) := p in
-      if ok then push_chars r' rest (S k) panic_at else Ret (r', PanicReserve)
-  end.
-Fixpoint push_strs (r : repr) (ss : list (list N)) (k : nat) (panic_at : option nat) : cmd (repr * outcome) :=
-  match ss with
-  | [] => Ret (r, OkUnit)
-  | s :: rest =>
-      if eq_opt_nat panic_at k then Ret (r, PanicUser) else
-      p <- push_str r s ;;
-      let '(r', ok) := p in
-      if ok then push_strs r' rest (S k) panic_at else Ret (r', PanicReserve)
-  end.
-(* a Display impl writing pieces through fmt::Write::write_str *)
+(* a Display impl writing pieces through fmt::Write::write_str; also the shape of every push loop:
+   item k is an error return (err_at), a panic of the callback (panic_at), or one push_str *)
 Fixpoint write_pieces (r : repr) (ps : list (list N)) (k : nat) (err_at panic_at : option nat)
   : cmd (repr * outcome) :=
   match ps with
@@ -93,6 +75,13 @@ Fixpoint write_pieces (r : repr) (ps : list (list N)) (k : nat) (err_at panic_at
       let '(r', ok) := p in
       if ok then write_pieces r' rest (S k) err_at panic_at else Ret (r', PanicReserve)
   end.
+
+(* Extend<char> body (lib.rs:1221-1223): self.push(ch) = try_push(ch).unwrap_with_msg(), char by char *)
+Definition push_chars (r : repr) (cs : list N) (k : nat) (panic_at : option nat) : cmd (repr * outcome) :=
+  write_pieces r (map encode_cp cs) k None panic_at.
+(* Extend<&str> body (lib.rs:1233-1237) *)
+Definition push_strs (r : repr) (ss : list (list N)) (k : nat) (panic_at : option nat) : cmd (repr * outcome) :=
+  write_pieces r ss k None panic_at.
 
 (* Extend<char> (lib.rs:1213-1225) *)
 Definition extend_chars (r : repr) (hint : N) (panic_at : option nat) (cs : list N) : cmd (repr * outcome) :=
